@@ -274,17 +274,21 @@ structure TodFact where
   pause2 : Bool
 deriving Repr, Inhabited
 
-/-- the am / pm part: `match` is what the after-string search left; `ExtractResult.end` is INCLUSIVE
-(`start + length - 1`), so the token ends one character short (sic). -/
-def todAmPm (f : TodFact) : List Tok :=
+/-- which match the am / pm part ends up with: what the after-string search left, else the am descriptor, replaced
+by the pm descriptor when there is none or it does not start the after-string. -/
+def todPick (f : TodFact) : Option Mt :=
   let m0 : Option Mt := match f.m1 with | some m => some m | none => f.am
-  let m : Option Mt :=
-    match m0 with
-    | none => f.pm
-    | some x => if x.s > 0 then f.pm else some x
-  match m with
-  | some x => if x.s == 0 then [⟨f.er.start, f.er.start + f.er.len - 1 + x.e⟩] else []
+  match m0 with
+  | none => f.pm
+  | some x => if x.s > 0 then f.pm else some x
+
+/-- `ExtractResult.end` is INCLUSIVE (`start + length - 1`), so the token ends one character short (sic). -/
+def todAmPmTok (er : Ent) : Option Mt → List Tok
+  | some x => if x.s == 0 then [⟨er.start, er.start + er.len - 1 + x.e⟩] else []
   | none => []
+
+/-- the am / pm part (`monday pm`). -/
+def todAmPm (f : TodFact) : List Tok := todAmPmTok f.er (todPick f)
 
 def todPrefix (f : TodFact) : List Tok :=
   match f.m2 with
